@@ -303,6 +303,20 @@ def run(ctx):
     ctx.lean_check("Mashu.Props.C06", THEOREMS, extra_targets=["Mashu.Dispatch"])
     leaf_wire_law(ctx)
     run_templates(ctx)
+    # timezone offsets that are not whole minutes (recorded finding K19: the documented text format has no seconds)
+    import datetime
+
+    import jsonschema
+    from mashumaro.codecs.basic import BasicEncoder
+    from mashumaro.jsonschema import build_json_schema
+
+    for td in (datetime.timedelta(seconds=30), datetime.timedelta(hours=1, seconds=30), datetime.timedelta(microseconds=1)):
+        case = {"timezone_offset_seconds": td.total_seconds()}
+        ctx.count(case, True, kind="tz-subminute")
+        doc = BasicEncoder(datetime.timezone).encode(datetime.timezone(td))
+        errs = list(jsonschema.Draft202012Validator(build_json_schema(datetime.timezone).to_dict()).iter_errors(doc))
+        if errs:
+            ctx.violation(case, {"document": doc, "error": errs[0].message[:200]}, "VALID(SCHEMA(S), encode(v))", "the serializer's output is rejected by the class's own schema", lambda f: f["id"] == "K19")
     n, depth = (1500, 3) if ctx.tier == "quick" else (25000, 4)
     done = 0
     while done < n and ctx.time_left() > 40:
